@@ -211,7 +211,11 @@ class FloatTol:
     def local_maxabs(arr, halves, reach):
         """per pixel (row-major list of Fractions): the largest |value| among the real pixels within `reach`
         half-windows of it - every number the decision about that pixel is computed from is a statistic of those"""
-        a = np.abs(np.asarray(arr, dtype=np.float64))
+        return [Fraction(float(v)) for v in FloatTol.local_max(np.abs(np.asarray(arr, dtype=np.float64)), halves, reach).ravel()]
+
+    @staticmethod
+    def local_max(a, halves, reach):
+        """per pixel: the largest value among the real pixels within `reach` half-windows of it"""
         out = a.copy()
         for ax, h in enumerate(halves):
             r, n = reach * h, a.shape[ax]
@@ -223,7 +227,7 @@ class FloatTol:
                 cur[tuple(lo)] = np.maximum(cur[tuple(lo)], out[tuple(hi)])
                 cur[tuple(hi)] = np.maximum(cur[tuple(hi)], out[tuple(lo)])
             out = cur
-        return [Fraction(float(v)) for v in out.ravel()]
+        return out
 
     def repl_tol(self, kind, real, rabs, A, corner=True):
         """how far a replaced value may be from the exact replacement.  Mean filter: Lean's `replBound u E rabs`
@@ -260,9 +264,19 @@ class FloatTol:
                 return "in"
             if lhs == 0 and rhs == 0 and A == 0:
                 return "in"  # a window of zeros: every sum is exactly 0
+            n = self.N + (0 if real else self.P)
+            if cell.get("rabs") is not None and unrat(cell["rabs"]) == 0:
+                # every other value of the window (pad values included) is exactly 0: the window sums to x exactly, x/N
+                # never rounds to x (x != 0), the spread is exactly 0 and a finite threshold times 0 is 0
+                return "out" if lhs > 0 else "in"
+            if cell.get("flat0"):
+                # Lean's flatSpreadExact: the neighbours are copies of one value with exact multiples - their spread is
+                # exactly 0 in floats and t*0 = 0 for every finite t: outlier exactly when the computed |x - m| is not 0
+                if lhs == 0:
+                    return "in"
+                return "out" if sqrt_bounds(lhs)[0] > 2 * (n + 4) * u * A + self.tiny else "near"
             d_lo, d_hi = sqrt_bounds(lhs)
             r_lo, r_hi = sqrt_bounds(rhs)
-            n = self.N + (0 if real else self.P)
             e = 2 * ((n + 4) * u * A * (1 + t) + (Fraction(n, 2) + 4) * u * r_hi + t * self.tiny_sd)
         else:
             exact_med = real or self.pads_exact  # every window median is a selection of exactly known values
@@ -295,7 +309,7 @@ class C13(Prop):
     id = "C13"
     anchored = ["src/pewlib/process/filters.py", "src/pewlib/process/calc.py"]
     cases = {"quick": 380, "thorough": 8000}
-    rule = ("32%: 1-D (n = b..60) and 2-D (sides b..max(26, 2b+3)) dyadic images: noise, ramps, plateaus, two-valued ties, constants, with "
+    rule = ("25%: 1-D (n = b..60) and 2-D (sides b..max(26, 2b+3)) dyadic images: noise, ramps, plateaus, two-valued ties, constants, with "
             "isolated spikes, spike clusters and constant regions; odd windows 3..15 (1-D) / 3..15 per axis with area < 64 (2-D; equal "
             "or not, int or tuple), thresholds 0, finite, inf; C/F/strided layouts, read-only or writeable; offsets 0/1000/2^20. "
             "16%: float stream `fconst` - constant images of non-dyadic doubles (k/3, k/10, k/1000, pi-like, large offsets, "
@@ -319,7 +333,11 @@ class C13(Prop):
             "previous array; every call judged against the Lean specification of the contents at the time of the call. 5%: `tie` - "
             "mean filter, a planted window whose statistics are all exactly representable and whose centre is exactly on the decision "
             "boundary |x-m| = t*s (kept: 'more than'), or one step inside / outside; Lean's meanDecisionExact certifies per pixel that "
-            "every float evaluation takes the exact decision (such pixels are demanded in every stream). One case in eight (all "
+            "every float evaluation takes the exact decision (such pixels are demanded in every stream). 7%: `flat0` - float64/float32, both filters: windows "
+            "whose neighbours are all equal (ground of exactly 0, of one value with exact multiples, of a subnormal pedestal, plateaus; "
+            "median: also heavy ties) around deviating pixels, thresholds at the extreme finite ends (5e-324..1e-300, 1e150..1.7e308; "
+            "float32 1.5e-45..3e38) or ordinary, deviations ordinary or subnormal: the spread is exactly 0 in floats (Lean "
+            "flatSpreadExact; MAD = 0), such pixels are judged exactly - replaced iff the deviation is not 0. One case in eight (all "
             "streams but the large class) is stored big-endian. non-trivial = at least one interior pixel is replaced, or a border "
             "pixel is replaced, or the image is constant, or the threshold is 0/inf, or a pixel is exactly on the boundary; distinct by "
             "canonical case hash. "
@@ -502,6 +520,8 @@ class C13(Prop):
             return self.gen_history(rng)
         if r < 0.68:
             return self.gen_tie(rng)
+        if r < 0.75:
+            return self.gen_flat(rng)
         ndim = rng.choice([1, 2, 2])
         kind = rng.choice(["mean", "median"])
         if ndim == 1:
@@ -851,6 +871,76 @@ class C13(Prop):
                 "layout": rng.choice(["C", "C", "F", "strided"]), "gen": ["tie-class", "tie-step:" + step],
                 "readonly": rng.random() < 0.25}
 
+    # ------------------------------------------------------------------ spread exactly 0, thresholds and deviations at the ends
+    F64_END_THR = [5e-324, 1e-320, 1e-310, 1e-300, 1e-200, 1e150, 1e154, 1.4e154, 1e160, 1e200, 1e300, 1.7e308]
+    F32_END_THR = [1.5e-45, 1e-40, 1e-38, 1e-30, 1e19, 2e19, 1e20, 1e30, 3e38]
+
+    def gen_flat(self, rng):
+        """windows whose neighbours are all equal (spread exactly 0: flat ground of exactly 0 or of one value with exact
+        multiples, plateaus, constant regions; for the median filter also heavy ties) around deviating pixels, with the
+        threshold at the extreme finite ends (5e-324 .. 1e-300, 1e150 .. 1.7e308; float32: 1.5e-45 .. 3e38) or ordinary, and
+        deviations ordinary or at the tiny end (subnormal, 1e-320 .. 1e-300; float32 1e-45 .. 1e-38).  The decision there is
+        exact in floats (Lean flatSpreadExact / MAD = 0): replaced iff the deviation is not 0, for every finite threshold."""
+        ndim = rng.choice([1, 2, 2])
+        kind = rng.choice(["mean", "median"])
+        block, shape = self.gen_geometry(rng, ndim, [3, 3, 5, 5, 7, 9] if ndim == 1 else [3, 3, 5], 40 if ndim == 1 else 15)
+        shape = self.with_interior(rng, shape, block, 0.9)
+        dtype = rng.choice(["float64", "float64", "float64", "float32"])
+        f32 = dtype == "float32"
+        sub = 2.0 ** (-149 if f32 else -1074)  # smallest subnormal
+        ground = rng.choice(["zero", "zero", "value", "value", "sub-pedestal", "plateaus"])
+        n = int(np.prod(shape))
+        if ground == "zero":
+            a = np.zeros(shape)
+        elif ground == "value":
+            a = np.full(shape, rng.choice([7.0, 1.25, -3.5, 96.0, 2.0 ** -30, -2.0 ** 40, 0.5]))
+        elif ground == "sub-pedestal":
+            a = np.full(shape, sub * rng.randint(1, 2000))
+        else:  # two or three levels in stripes wider than a window
+            lv = [rng.choice([0.0, 4.0, -2.5, 12.0, 0.75]) for _ in range(3)]
+            wdt = max(block) + rng.randint(1, 4)
+            idx = np.indices(shape)
+            a = np.array([lv[int(i) % 3] for i in (idx[rng.randrange(ndim)] // wdt).ravel()]).reshape(shape)
+        feats = ["flat0-class", "flat-ground:" + ground]
+        tiny_dev = rng.random() < (0.6 if ground in ("zero", "sub-pedestal") else 0.0)
+        for _ in range(rng.randint(1, 4)):
+            q = tuple(rng.randrange(b, s_ - b) if s_ > 2 * b and rng.random() < 0.8 else rng.randrange(s_) for s_, b in zip(shape, block))
+            if tiny_dev:
+                d = rng.choice([-1, 1]) * sub * rng.choice([1, 2, 3, 1000, 10 ** 6, 10 ** 10, 2 ** 40])
+            else:
+                d = rng.choice([-1, 1]) * rng.choice([0.5, 3.0, 93.0, 2.0 ** -20, 1e6])
+            a[q] = a[q] + d
+        feats.append("flat-dev:" + ("tiny-end" if tiny_dev else "ordinary"))
+        if kind == "median" and rng.random() < 0.3:  # heavy ties instead of a flat window: fewer than half of the pixels move
+            for _ in range(max(1, n // 6)):
+                q = tuple(rng.randrange(s_) for s_ in shape)
+                a[q] = a[q] + rng.choice([-1, 1]) * (sub * rng.randint(1, 50) if tiny_dev else rng.choice([0.25, 1.0]))
+            feats.append("flat:heavy-ties")
+        r = rng.random()
+        if r < 0.7:
+            thr = float(np.float32(rng.choice(self.F32_END_THR))) if f32 else rng.choice(self.F64_END_THR)
+            feats.append("thr-end:" + ("tiny" if thr < 1 else "huge"))
+        else:
+            thr = rng.choice([0.0, 0.5, 1.0, 3.0, 3.0, 10.0, 1e3])
+        return {"stream": "fgen", "kind": kind, "shape": shape, "fdata": [hexf(v) for v in a.ravel()], "block": block,
+                "block_int": len(set(block)) == 1 and rng.random() < 0.5, "threshold": hexf(float(thr)), "dtype": dtype,
+                "layout": rng.choice(["C", "C", "F", "strided", "reversed"]), "readonly": rng.random() < 0.3, "gen": feats,
+                "byteorder": rng.choice(BYTEORDERS)}
+
+    def flat_targeted(self):
+        base = {"stream": "fgen", "block_int": False, "layout": "C", "dtype": "float64", "readonly": False, "gen": ["targeted-float", "flat0-class"]}
+        z = [0.0] * 40
+        z[12], z[27] = 1e-305, -3e-306
+        img = [7.0] * 144
+        img[5 * 12 + 5], img[8 * 12 + 2] = 100.0, 3.0
+        for kind in ("mean", "median"):
+            for thr in (1e3, 1.0, 5e-324, 1e300):
+                yield {**base, "kind": kind, "shape": [40], "fdata": [hexf(v) for v in z], "block": [5], "threshold": hexf(thr)}
+            for thr in (3.0, 1e150, 1e160, 1e300):
+                yield {**base, "kind": kind, "shape": [12, 12], "fdata": [hexf(v) for v in img], "block": [3, 3], "threshold": hexf(thr)}
+            yield {**base, "kind": kind, "shape": [12, 12], "fdata": [hexf(v) for v in img], "block": [3, 3], "dtype": "float32",
+                   "threshold": hexf(float(np.float32(1e20)))}
+
     # ------------------------------------------------------------------ integer images of every dtype
     def gen_ints(self, rng):
         """integer images: every unsigned and signed dtype, values low in the dtype's range (a pixel below its window's
@@ -1085,6 +1175,7 @@ class C13(Prop):
         yield from self.float_targeted()
         yield from self.hdr_targeted()
         yield from self.history_targeted()
+        yield from self.flat_targeted()
 
     # ------------------------------------------------------------------ evaluation
     def evaluate(self, case, ctx):
@@ -1156,6 +1247,9 @@ class C13(Prop):
             grid = np.array([float(v) for v in vals], dtype=np.float64).reshape(shape)
             a_loc = FloatTol.local_maxabs(grid, halves, 2 if kind == "median" else 1)
         m_loc = None  # median filter: per pixel, a bound on the |window median| of the pixels of its window
+        flat_loc = None  # median filter: per pixel, all real pixels within two half-windows are equal (everything is exact)
+        if fmode and kind == "median" and not ftol.pads_exact:
+            flat_loc = (FloatTol.local_max(grid, halves, 2) == -FloatTol.local_max(-grid, halves, 2)).ravel()
         xs = [float(v) for v in np.asarray(x, dtype=np.float64).ravel()]  # the input as floats (keeps the sign of a zero)
 
         def real_window(p, reach=1):  # no padded value within `reach` half-windows of pixel p
@@ -1198,6 +1292,8 @@ class C13(Prop):
                 m = ftol.margin(kind, cell, real, a_loc[k], corner, None if m_loc is None else m_loc[k])
                 if fexact(cell):
                     m = "out" if cell["outlier"] else "in"
+                if m == "near" and flat_loc is not None and flat_loc[k] and unrat(cell["lhs"]) == 0 and not ftol.inf_used:
+                    m = "in"  # every value the pixel can see is the same number c: pad values (c + c)/2, medians, deviations 0 are exact
                 if m == "near":
                     return is_x or is_r, True
                 return (is_r if m == "out" else is_x), False
